@@ -512,7 +512,7 @@ def gen_fa_replay(rng, cid, N, D, d, T, eps=0.0, cap=2):
          "exact": True, "replay_model": True}
     # exact rationals with 53-bit initial loadings grow fast: the trajectory is computed for at most `cap` rounds (a run
     # that the model says is still going after that is counted as undecided)
-    c["traj_rounds"] = min(T, cap if D > 1 else cap + 1)
+    c["traj_rounds"] = min(T, cap)
     c["shift"] = [dyad(rng, -16, 16, 4) for _ in range(D)]
     return with_range(rng, c, lambda P: gen_points(rng, P, D, span=8, den=8, distinct=True))
 
@@ -1169,7 +1169,8 @@ def generate(ctx, rng, budget):
     meas += [gen_spe_stress(rng, "l%d" % i, False) for i in range(budget["lstress"])]
     pairs = [gen_rp(rng, "r%d" % i, i % 2 == 0) for i in range(budget["rp"])]
     pairs += [gen_fa(rng, "f%d" % i, i % 3 != 2) for i in range(budget["fa"])]
-    pairs += [gen_fa_replay(rng, "q%d" % i, *shape) for i, shape in enumerate(budget["fa_replay"])]
+    pairs += [gen_fa_replay(rng, "q%d" % i, *shape, cap=(3 if (budget.get("fa_cap3") and shape[1] == 1) else 2))
+              for i, shape in enumerate(budget["fa_replay"])]
     return spe, bad, meas, pairs
 
 
@@ -1236,7 +1237,7 @@ def run(ctx):
               {"spe": 3000, "bad": 200, "gstress": 300, "lstress": 200, "rp": 600, "fa": 400, "reps": 2000000,
                "fa_replay": fa_quick * 3 + [(16, 4, 3, 1, 0.0), (8, 3, 1, 1, 0.0), (8, 3, 2, 1, 0.0), (4, 3, 2, 1, 0.0), (8, 2, 1, 2, 0.0),
                                             (16, 2, 1, 1, 0.0), (8, 3, 1, 2, 2.0), (4, 2, 2, 2, 1.0), (4, 1, 1, 4, 0.5)],
-               "polar": [(4, 3), (9, 2), (2, 5), (16, 4), (1, 1), (7, 7), (32, 2), (3, 16)]})
+               "fa_cap3": True, "polar": [(4, 3), (9, 2), (2, 5), (16, 4), (1, 1), (7, 7), (32, 2), (3, 16)]})
     spe, bad, meas, pairs = generate(ctx, rng, budget)
     corp = corpus_cases(ctx)
     st.hist["corpus"] = len(corp)
